@@ -14,12 +14,12 @@ var extras []func(map[string]any)
 
 func main() {
 	c := map[string]any{
-		"MaxEpochDiff":            int64(ss2022.MaxEpochDiff),
-		"MaxTimeDiffNs":           int64(ss2022.MaxTimeDiff),
-		"ReplayWindowNs":          int64(ss2022.ReplayWindowDuration),
+		"MaxEpochDiff":             int64(ss2022.MaxEpochDiff),
+		"MaxTimeDiffNs":            int64(ss2022.MaxTimeDiff),
+		"ReplayWindowNs":           int64(ss2022.ReplayWindowDuration),
 		"DefaultSlidingWindowSize": int64(ss2022.DefaultSlidingWindowFilterSize),
-		"MaxPaddingLength":        int64(ss2022.MaxPaddingLength),
-		"IdentityHeaderLength":    int64(ss2022.IdentityHeaderLength),
+		"MaxPaddingLength":         int64(ss2022.MaxPaddingLength),
+		"IdentityHeaderLength":     int64(ss2022.IdentityHeaderLength),
 	}
 	for _, f := range extras {
 		f(c)
